@@ -384,6 +384,7 @@ class Transaction:
         line.on_write = on_write
         line.connect_ok = connect_ok
         w0, r0 = len(line.writes), len(line.reads)
+        pending0 = len(line.rx)              # bytes an earlier transaction left unread in the transport
         res = {"kind": "none", "pdu": [], "exc": ""}
         self.clock.ops = 0
         t_start = self.clock.t
@@ -407,4 +408,4 @@ class Transaction:
         self.dec.raw.clear()
         return {"uid": uid, "fc": reqpdu[0], "pdu": list(reqpdu), "script": list(script), "fed": fed,
                 "writes": [list(w) for w in line.writes[w0:]], "reads": line.reads[r0:], "result": res,
-                "connfail": 0 if connect_ok else 1, "exact": exact, "vtime": round(self.clock.t - t_start, 3)}
+                "connfail": 0 if connect_ok else 1, "exact": exact, "pending_at_start": pending0, "vtime": round(self.clock.t - t_start, 3)}
